@@ -286,13 +286,19 @@ def catalog():
 OPQ_FOR = {'str': [0, 1, 3, 4], 'bytes': [2], 'path': list(range(5, 15)), 'fn': [15, 16, 17], 'int': [18, 19]}
 
 
+class UnsafeInput(BaseException):
+    """an int would reach a filesystem matcher: open(<int>) adopts - and closes - that file descriptor"""
+
+
 class Recorder:
     """stands in for an opaque leaf during the dry run that finds out which values reach it"""
 
-    def __init__(self, real, log):
-        self.real, self.log = real, log
+    def __init__(self, real, log, path_kind=False):
+        self.real, self.log, self.path_kind = real, log, path_kind
 
     def match(self, v):
+        if self.path_kind and not isinstance(v, (str, list, dict, type(None), ObjBase)):
+            raise UnsafeInput()
         self.log.append(v)
         return self.real.match(v)
 
@@ -311,8 +317,8 @@ def classify_exc(e):
 # ---------------------------------------------------------------- the plug-in
 class C06(Prop):
     id = 'C06'
-    budgets = {'quick': 50000, 'thorough': 900000}
-    time_limit = {'quick': 40, 'thorough': 540}
+    budgets = {'quick': 50000, 'thorough': 1200000}
+    time_limit = {'quick': 40, 'thorough': 480}
     rule = ('value-directed random matcher expressions (depth 0-4) over all stock matchers of testtools.matchers.__all__ x matchees '
             'from ints, strs, bytes, None, lists, dicts, objects with attributes, exc_info tuples, callables, scratch-dir paths; '
             '~10% deliberately ill-typed; MatchesSetwise nodes carry two forced set-iteration orders. thorough adds every '
@@ -411,7 +417,7 @@ class C06(Prop):
             real = self.cat()[t[1]][1]()
             if rec is not None:
                 log = rec.setdefault(t[1], [])
-                return Recorder(real, log)
+                return Recorder(real, log, t[1] in OPQ_FOR['path'])
             return real
         if h == 'not':
             return M.Not(B(t[1]))
@@ -530,6 +536,8 @@ class C06(Prop):
         for which in (0, 1):
             try:
                 self.build_m(m, ctx, which, [], rec).match(pv)
+            except UnsafeInput:
+                return None
             except BaseException:
                 pass
         cands = []
@@ -615,9 +623,12 @@ class C06(Prop):
     def gen(self, rng, tier):
         g = Gen(rng, self)
         depth = rng.choice([0, 1, 1, 2, 2, 2, 3, 3, 4])
-        v = g.value()
-        m = g.matcher(v, depth)
-        return self.complete([m, v])
+        while True:
+            v = g.value()
+            m = g.matcher(v, depth)
+            inp = self.complete([m, v])
+            if inp is not None:     # None: the dry run saw an int reach a filesystem matcher
+                return inp
 
     def enumerate(self, tier):
         vals = [['i', 1], ['i', 2], ['s', 97], ['l'], ['l', ['i', 1]], ['l', ['i', 1], ['i', 2]], ['l', ['i', 2], ['i', 1]],
@@ -662,9 +673,13 @@ class C06(Prop):
     def shrink(self, inp):
         m, v = self.strip(inp[0]), inp[1]
         for m2 in shrink_m(m):
-            yield self.complete([m2, v])
+            c = self.complete([m2, v])
+            if c is not None:
+                yield c
         for v2 in shrink_v(v):
-            yield self.complete([m, v2])
+            c = self.complete([m, v2])
+            if c is not None:
+                yield c
 
 
 LEAF_HEADS = {'eq', 'ne', 'is', 'lt', 'gt', 'same', 'starts', 'ends', 'contains', 'isinst', 'len', 'always', 'never', 'keys',
@@ -1004,7 +1019,8 @@ class Gen:
             # ill-typed on purpose: a matcher built for some other value (never for exc_info tuples / exception
             # instances / callables, whose behaviour under foreign matchers is outside the model)
             w = self.value(1, ['int', 'str', 'bytes', 'none', 'list', 'dict', 'obj'])
-            if self.vtype(v) not in ('ei', 'ev', 'fn') and '47' not in repr(w):   # no path strings (47 = '/')
+            rv = repr(v)
+            if not any(h in rv for h in ("'ei'", "'ev'", "'fr'", "'fx'")) and '47' not in repr(w):   # no path strings (47 = '/')
                 return self.matcher_for(w, depth)
         return self.matcher_for(v, depth)
 
